@@ -239,13 +239,13 @@ def D1_async(n, done):
     return 3 if done else 2
 
 
-@obligation(params=dict(enc=Int(0, 3), err=Int(0, 2), cls=Int(0, 3)), tags={2: 'unicode mode', 3: 'bytes mode'}, timeout=200,
+@obligation(params=dict(enc=Int(0, 3), err=Int(0, 2), cls=Int(0, 4)), tags={2: 'unicode mode', 3: 'bytes mode'}, timeout=200,
             note='D2 wiring: each class creates ONE incremental decoder of the requested codec and error policy and '
                  'uses text buffers; without an encoding bytes pass through unchanged')
 def D2_wiring(enc, err, cls):
     enc = [None, 'utf-8', 'utf-16', 'latin-1'][pick(enc, 0, 3)]
     err = ['strict', 'replace', 'ignore'][pick(err, 0, 2)]
-    cls = pick(cls, 0, 3)
+    cls = pick(cls, 0, 4)
     made = []
     real = codecs.getincrementaldecoder
 
@@ -269,6 +269,23 @@ def D2_wiring(enc, err, cls):
             sp = PS.spawn(None, encoding=enc, codec_errors=err)
         elif cls == 2:
             sp = SK.SocketSpawn(_Sock(b''), encoding=enc, codec_errors=err)
+        elif cls == 4:
+            # PopenSpawn: no process, no reader thread - only the constructor's wiring is exercised
+            class _Sub:
+                PIPE, STDOUT = -1, -2
+
+                @staticmethod
+                def Popen(cmd, **kw):
+                    return type('P', (), {'pid': 77})()
+
+            class _Thr:
+                @staticmethod
+                def Thread(target=None):
+                    return type('T', (), {'daemon': False, 'start': lambda self: None})()
+            with patched(PO, subprocess=_Sub, threading=_Thr):
+                sp = PO.PopenSpawn(['prog'], encoding=enc, codec_errors=err)
+            if sp._buf != ('' if enc else b''):
+                return 0
         else:
             with patched(FD, os=type('o', (), {'fstat': staticmethod(lambda fd: None)})):
                 sp = FD.fdspawn(7, encoding=enc, codec_errors=err)
@@ -389,6 +406,9 @@ def dry_runs():
     yield 'D1_async', dict(n=2, done=False)
     for tr in range(3):
         yield 'D1_fd_pty', dict(w0=3, r0=0, gone=False, t1=0, w1=3, size=2, tr=tr, tmo=0)
+    for cls in range(5):
+        yield 'D2_wiring', dict(enc=1, err=1, cls=cls)
+        yield 'D2_wiring', dict(enc=0, err=0, cls=cls)
 
 
 PROBES = ['transports', 'expect_core']      # representation probes (harness/probes.py) this harness depends on
